@@ -65,6 +65,7 @@ import (
 	"crypto/rsa"
 	"crypto/sha256"
 	stdx509 "crypto/x509"
+	stdasn1 "encoding/asn1"
 	"encoding/base64"
 	"encoding/binary"
 	"encoding/json"
@@ -146,6 +147,7 @@ type subject struct {
 	submit [][]byte // chain as posted
 	path   [][]byte // expected validated path after the leaf (issuer ... root)
 	kind   string
+	quirk  string // non-empty: the certificate has a peculiarity the lenient X.509 parser only complains about (see quirks)
 	// reference data for a precertificate, from the harness's PKI (not from the library under test):
 	// the CA that issues the final certificate, the contents it signs, the TBSCertificate of that
 	// final certificate without SCT list (= the RFC 6962 s3.2 PreCert.tbs_certificate) and
@@ -168,8 +170,15 @@ func (w *world) reference(s *subject, o pki.Opts, ca *pki.Entity) *subject {
 		}
 	}
 	fin := pki.Issue(fo, ca)
-	fc, err := stdx509.ParseCertificate(fin.DER)
-	if err != nil {
+	// the TBSCertificate is cut out by hand (encoding/asn1: Certificate ::= SEQUENCE { tbsCertificate, ... });
+	// crypto/x509 must agree wherever it parses the certificate at all - it refuses some of the
+	// peculiar certificates (quirks) that the log accepts
+	tbs := cutTBS(fin.DER)
+	if fc, err := stdx509.ParseCertificate(fin.DER); err == nil {
+		if !bytes.Equal(fc.RawTBSCertificate, tbs) {
+			panic("crypto/x509 and the hand cut disagree on the TBSCertificate of " + s.name)
+		}
+	} else if s.quirk == "" {
 		panic(fmt.Sprintf("crypto/x509 does not parse the final certificate of %s: %v", s.name, err))
 	}
 	cc, err := stdx509.ParseCertificate(ca.DER)
@@ -177,8 +186,111 @@ func (w *world) reference(s *subject, o pki.Opts, ca *pki.Entity) *subject {
 		panic(err)
 	}
 	ikh := sha256.Sum256(cc.RawSubjectPublicKeyInfo)
-	s.finCA, s.finOpts, s.refTBS, s.refIKH = ca, fo, fc.RawTBSCertificate, ikh[:]
+	s.finCA, s.finOpts, s.refTBS, s.refIKH = ca, fo, tbs, ikh[:]
 	return s
+}
+
+// cutTBS returns the bytes of the first element of the outer SEQUENCE of a certificate.
+func cutTBS(der []byte) []byte {
+	var c struct {
+		TBS, Alg stdasn1.RawValue
+		Sig      stdasn1.BitString
+	}
+	if rest, err := stdasn1.Unmarshal(der, &c); err != nil || len(rest) != 0 {
+		panic(fmt.Sprintf("certificate is not SEQUENCE { tbs, algorithm, signature }: %v", err))
+	}
+	return c.TBS.FullBytes
+}
+
+// ---------------------------------------------------------------- peculiar certificates
+//
+// Real logs are full of certificates that are not quite RFC 5280.  This repository's X.509 parser
+// is lenient on purpose: for a list of peculiarities it returns the parsed certificate TOGETHER
+// with an error of type x509.NonFatalErrors, and the front end (ctfe.ValidateChain) accepts such a
+// certificate, stores it and issues an SCT for it like for any other.  The property makes no
+// exception for them: they must be found, served and DECODED like any other entry.  One leaf in
+// four is therefore issued with one of the peculiarities below (built from raw extension values /
+// a raw subject, so nothing here depends on what the parser makes of them).
+
+type quirk struct {
+	name   string
+	x509   bool // only for certificates (not precertificates)
+	modify func(r *rand.Rand, o *pki.Opts)
+}
+
+func tlv(tag byte, content ...[]byte) []byte {
+	var c []byte
+	for _, x := range content {
+		c = append(c, x...)
+	}
+	switch {
+	case len(c) < 128:
+		return append([]byte{tag, byte(len(c))}, c...)
+	case len(c) < 256:
+		return append([]byte{tag, 0x81, byte(len(c))}, c...)
+	}
+	return append([]byte{tag, 0x82, byte(len(c) >> 8), byte(len(c))}, c...)
+}
+
+func extra(o *pki.Opts, oid ctasn1.ObjectIdentifier, val []byte) {
+	o.ExtraExt = append(append([]pkix.Extension{}, o.ExtraExt...), pkix.Extension{Id: oid, Value: val})
+}
+
+var quirks = []quirk{
+	// subjectAltName with an iPAddress that is neither 4 nor 16 octets long
+	{name: "san-ip-odd-length", modify: func(r *rand.Rand, o *pki.Opts) {
+		ip := make([]byte, []int{1, 3, 5, 8, 15, 17}[r.Intn(6)])
+		for i := range ip {
+			ip[i] = byte(10 + i)
+		}
+		extra(o, ctasn1.ObjectIdentifier{2, 5, 29, 17}, tlv(0x30, tlv(0x82, []byte(o.CN)), tlv(0x87, ip)))
+	}},
+	// extKeyUsage whose value is empty
+	{name: "eku-empty", modify: func(r *rand.Rand, o *pki.Opts) {
+		extra(o, ctasn1.ObjectIdentifier{2, 5, 29, 37}, nil)
+	}},
+	// authorityInfoAccess / subjectInfoAccess: SEQUENCE SIZE (1..MAX) with no element
+	{name: "aia-empty", modify: func(r *rand.Rand, o *pki.Opts) {
+		extra(o, ctasn1.ObjectIdentifier{1, 3, 6, 1, 5, 5, 7, 1, 1}, tlv(0x30))
+	}},
+	{name: "sia-empty", modify: func(r *rand.Rand, o *pki.Opts) {
+		extra(o, ctasn1.ObjectIdentifier{1, 3, 6, 1, 5, 5, 7, 1, 11}, tlv(0x30))
+	}},
+	// an embedded SCT list that does not decode (not an OCTET STRING / a truncated TLS list)
+	{name: "sct-list-undecodable", x509: true, modify: func(r *rand.Rand, o *pki.Opts) {
+		v := tlv(0x04, []byte{0, 9, 0, 7, 1, 2, 3})
+		if r.Intn(2) == 0 {
+			v = tlv(0x0c, []byte("no list"))
+		}
+		extra(o, pki.OIDSCTList, v)
+	}},
+	// RFC 3779 extensions that do not decode
+	{name: "rpki-addr-blocks-undecodable", modify: func(r *rand.Rand, o *pki.Opts) {
+		extra(o, ctasn1.ObjectIdentifier{1, 3, 6, 1, 5, 5, 7, 1, 7}, tlv(0x30, tlv(0x30, tlv(0x04, []byte{0, 1, 1, 1, 1}), tlv(0x30, tlv(0x02, []byte{1})))))
+	}},
+	{name: "rpki-as-ids-undecodable", modify: func(r *rand.Rand, o *pki.Opts) {
+		extra(o, ctasn1.ObjectIdentifier{1, 3, 6, 1, 5, 5, 7, 1, 8}, tlv(0x30, tlv(0xa0, tlv(0x30, tlv(0x04, []byte{7})))))
+	}},
+	// a subject whose PrintableString holds a character outside the PrintableString set
+	{name: "subject-printablestring-underscore", modify: func(r *rand.Rand, o *pki.Opts) {
+		cn := "id_" + o.CN
+		o.CN = cn
+		raw := tlv(0x30, tlv(0x31, tlv(0x30, tlv(0x06, []byte{0x55, 4, 3}), tlv(0x13, []byte(cn)))))
+		o.Mutate = func(t *ctx509.Certificate) { t.RawSubject = raw }
+	}},
+}
+
+// peculiar draws a peculiarity for the certificate described by o (one leaf in four).
+func peculiar(r *rand.Rand, o *pki.Opts, pre bool) string {
+	if r.Intn(4) != 0 {
+		return ""
+	}
+	q := quirks[r.Intn(len(quirks))]
+	for pre && q.x509 {
+		q = quirks[r.Intn(len(quirks))]
+	}
+	q.modify(r, o)
+	return q.name
 }
 
 func put24(b []byte, x []byte) []byte {
@@ -349,24 +461,35 @@ func (w *world) setLogKey(kind string) {
 func (w *world) nextSerial() int64 { w.serial++; return w.serial }
 
 func (w *world) leaf(r *rand.Rand, n int) *subject {
+	var s *subject
 	switch k := r.Intn(10); {
 	case k < 4: // certificate under the intermediate
-		e := pki.Issue(pki.Opts{CN: fmt.Sprintf("leaf%d.example", n), KeyIdx: 10 + r.Intn(3), DNSNames: []string{fmt.Sprintf("leaf%d.example", n)}}, w.interA)
-		return &subject{name: e.Cert.Subject.CommonName, der: e.DER, submit: [][]byte{e.DER, w.interA.DER}, path: [][]byte{w.interA.DER, w.rootA.DER}, kind: "x509"}
+		o := pki.Opts{CN: fmt.Sprintf("leaf%d.example", n), KeyIdx: 10 + r.Intn(3), DNSNames: []string{fmt.Sprintf("leaf%d.example", n)}}
+		q := peculiar(r, &o, false)
+		e := pki.Issue(o, w.interA)
+		s = &subject{name: o.CN, der: e.DER, submit: [][]byte{e.DER, w.interA.DER}, path: [][]byte{w.interA.DER, w.rootA.DER}, kind: "x509", quirk: q}
 	case k < 5: // certificate directly under the root, root included in the post
-		e := pki.Issue(pki.Opts{CN: fmt.Sprintf("direct%d.example", n), KeyIdx: 10 + r.Intn(3)}, w.rootA)
-		return &subject{name: e.Cert.Subject.CommonName, der: e.DER, submit: [][]byte{e.DER, w.rootA.DER}, path: [][]byte{w.rootA.DER}, kind: "x509-direct"}
+		o := pki.Opts{CN: fmt.Sprintf("direct%d.example", n), KeyIdx: 10 + r.Intn(3)}
+		q := peculiar(r, &o, false)
+		e := pki.Issue(o, w.rootA)
+		s = &subject{name: o.CN, der: e.DER, submit: [][]byte{e.DER, w.rootA.DER}, path: [][]byte{w.rootA.DER}, kind: "x509-direct", quirk: q}
 	case k < 8: // precertificate under the intermediate
 		o := pki.Opts{CN: fmt.Sprintf("pre%d.example", n), KeyIdx: 10 + r.Intn(3), ExtraExt: []pkix.Extension{pki.PoisonExt()}, Serial: bigInt(500000 + int64(n))}
+		q := peculiar(r, &o, true)
 		e := pki.Issue(o, w.interA)
-		return w.reference(&subject{name: e.Cert.Subject.CommonName, pre: true, der: e.DER, submit: [][]byte{e.DER, w.interA.DER}, path: [][]byte{w.interA.DER, w.rootA.DER}, kind: "precert"}, o, w.interA)
+		s = w.reference(&subject{name: o.CN, pre: true, der: e.DER, submit: [][]byte{e.DER, w.interA.DER}, path: [][]byte{w.interA.DER, w.rootA.DER}, kind: "precert", quirk: q}, o, w.interA)
 	default: // precertificate signed by a precertificate signing certificate
 		// the final certificate is issued by the intermediate itself, never by the signing certificate
 		o := pki.Opts{CN: fmt.Sprintf("prei%d.example", n), KeyIdx: 10 + r.Intn(3), ExtraExt: []pkix.Extension{pki.PoisonExt()}, Serial: bigInt(500000 + int64(n))}
+		q := peculiar(r, &o, true)
 		e := pki.Issue(o, w.preIssuer)
-		return w.reference(&subject{name: e.Cert.Subject.CommonName, pre: true, der: e.DER, submit: [][]byte{e.DER, w.preIssuer.DER, w.interA.DER},
-			path: [][]byte{w.preIssuer.DER, w.interA.DER, w.rootA.DER}, kind: "precert-preissuer"}, o, w.interA)
+		s = w.reference(&subject{name: o.CN, pre: true, der: e.DER, submit: [][]byte{e.DER, w.preIssuer.DER, w.interA.DER},
+			path: [][]byte{w.preIssuer.DER, w.interA.DER, w.rootA.DER}, kind: "precert-preissuer", quirk: q}, o, w.interA)
 	}
+	if s.quirk != "" {
+		s.kind += "+" + s.quirk
+	}
+	return s
 }
 
 // the same certificate with the cross-signed intermediate: another valid chain for a duplicate
@@ -812,6 +935,14 @@ func (h *hist) submit(tag callTag, s *subject, wrongEndpoint bool) *submission {
 	h.mu.Lock()
 	h.accepted = append(h.accepted, sb)
 	h.mu.Unlock()
+	if s.quirk != "" {
+		// the premise of the peculiar-certificate stream: the lenient parser complains, but not fatally
+		if _, perr := ctx509.ParseCertificate(s.der); perr != nil && !ctx509.IsFatal(perr) {
+			h.tagf("cert:accepted-with-non-fatal-parser-errors:" + s.quirk)
+		} else {
+			h.tagf("cert:peculiarity-not-reported-by-parser:" + s.quirk)
+		}
+	}
 	return sb
 }
 
@@ -1044,8 +1175,141 @@ func (h *hist) entryAndProof(tag callTag, idx, size uint64, inRange bool) {
 	h.served("get-entry-and-proof", int(idx), rsp.LeafInput, rsp.ExtraData)
 }
 
-func (h *hist) entries(tag callTag, start, end int64, inRange bool) {
-	rsp, err := h.lc.GetRawEntries(h.ctx(tag), start, end)
+// getEntries reads [start, end] through the history's LogClient, in one of the two forms the client
+// offers: GetRawEntries (JSON decoded, nothing else) or - decoded - GetEntries, which hands the
+// entries back PARSED (ct.LogEntry: index, Merkle tree leaf, certificate or precertificate, chain),
+// the form a monitor works with.  In the decoded form the raw answer is taken from the recorded
+// exchange, so that every oracle on the served bytes applies to both forms, and the parsed entries
+// are checked against the submissions (decodedEntries).  A 200 answer that the client then fails to
+// hand back is a failure of the property's last clause ("... whose stored entry decodes to the
+// submitted certificate and chain"), reported here; the raw answer is returned all the same.
+func (h *hist) getEntries(tag callTag, start, end int64, decoded bool) (*ct.GetEntriesResponse, error) {
+	if !decoded {
+		return h.lc.GetRawEntries(h.ctx(tag), start, end)
+	}
+	h.tagf("client:get-entries-decoded")
+	les, err := h.lc.GetEntries(h.ctx(tag), start, end)
+	ex := h.rt.exchangeOf(tag)
+	if ex == nil || ex.status != http.StatusOK {
+		if err == nil {
+			h.fail("LogClient.GetEntries(%d,%d) returned entries without a 200 answer of the log", start, end)
+			err = errors.New("no 200 answer")
+		}
+		return nil, err
+	}
+	var raw ct.GetEntriesResponse
+	if jerr := json.Unmarshal(ex.body, &raw); jerr != nil {
+		if err == nil {
+			h.fail("LogClient.GetEntries(%d,%d) returned entries for an answer that is not JSON", start, end)
+			err = jerr
+		}
+		return nil, err
+	}
+	if err != nil {
+		// which of the served entries hold a certificate the lenient parser complains about
+		var odd []string
+		for j := range raw.Entries {
+			if q := h.quirkAt(int(start) + j); q != "" {
+				odd = append(odd, fmt.Sprintf("%d:%s", int(start)+j, q))
+			}
+		}
+		h.fail("LogClient.GetEntries(%d,%d): the log served %d entries, the client does not decode them to the submitted certificates and chains (entries with a peculiar certificate: %v): %s",
+			start, end, len(raw.Entries), odd, errClass(err))
+		return &raw, nil
+	}
+	h.decodedEntries(start, end, &raw, les)
+	return &raw, nil
+}
+
+// errClass: the kind of an error of LogClient.GetEntries, without texts that vary.
+func errClass(err error) string {
+	var re client.RspError
+	if errors.As(err, &re) {
+		var nf ctx509.NonFatalErrors
+		if errors.As(re.Err, &nf) {
+			return fmt.Sprintf("RspError (status %d) carrying x509.NonFatalErrors only", re.StatusCode)
+		}
+		return fmt.Sprintf("RspError (status %d): %v", re.StatusCode, re.Err)
+	}
+	return err.Error()
+}
+
+// quirkAt: the peculiarity of the certificate stored at index idx ("" if none / unknown).
+func (h *hist) quirkAt(idx int) string {
+	if idx < 0 || idx >= h.log.Size() {
+		return ""
+	}
+	st := h.log.LeafAt(idx)
+	h.mu.Lock()
+	defer h.mu.Unlock()
+	for _, sb := range h.subs {
+		if sb.bad != "" || sb.sub.der == nil {
+			continue
+		}
+		if id := sha256.Sum256(sb.sub.der); bytes.Equal(id[:], st.ID) {
+			return sb.sub.quirk
+		}
+	}
+	return ""
+}
+
+// decodedEntries is the oracle on what LogClient.GetEntries(start, end) handed back for the raw
+// answer raw: one parsed entry per served entry, in order, carrying its index; entry j is of the
+// type of the submission stored under the identity of leaf start+j and decodes to THAT submission:
+// the certificate (for a precertificate: the submitted precertificate, and the issuer key hash and
+// TBSCertificate of the harness's reference data) byte for byte, and the chain of a submission of
+// that certificate - whatever the lenient parser has to say about the certificate.
+func (h *hist) decodedEntries(start, end int64, raw *ct.GetEntriesResponse, les []ct.LogEntry) {
+	if len(les) != len(raw.Entries) {
+		h.fail("LogClient.GetEntries(%d,%d) returned %d entries for an answer with %d", start, end, len(les), len(raw.Entries))
+		return
+	}
+	for j := range les {
+		e, idx := &les[j], int(start)+j
+		if idx >= h.log.Size() {
+			break // reported by the caller
+		}
+		if e.Index != int64(idx) {
+			h.fail("LogClient.GetEntries(%d,%d): entry %d carries index %d", start, end, j, e.Index)
+		}
+		st := h.log.LeafAt(idx)
+		h.mu.Lock()
+		known, certOK, chainOK, quirk := false, false, false, ""
+		for _, sb := range h.subs {
+			if sb.bad != "" || sb.sub.der == nil {
+				continue
+			}
+			if id := sha256.Sum256(sb.sub.der); !bytes.Equal(id[:], st.ID) {
+				continue
+			}
+			known, quirk = true, sb.sub.quirk
+			if sb.sub.pre {
+				p := e.Precert
+				certOK = certOK || p != nil && e.X509Cert == nil && bytes.Equal(p.Submitted.Data, sb.sub.der) && bytes.Equal(p.IssuerKeyHash[:], sb.sub.refIKH) &&
+					p.TBSCertificate != nil && bytes.Equal(p.TBSCertificate.Raw, sb.sub.refTBS)
+			} else {
+				certOK = certOK || e.X509Cert != nil && e.Precert == nil && bytes.Equal(e.X509Cert.Raw, sb.sub.der)
+			}
+			chainOK = chainOK || chainEq(e.Chain, sb.sub.path)
+		}
+		if known && quirk != "" {
+			h.tags["observed:peculiar-certificate-decoded-by-client"]++
+		}
+		h.mu.Unlock()
+		if !known {
+			continue // reported by served()
+		}
+		if !certOK {
+			h.fail("LogClient.GetEntries(%d,%d): entry %d does not decode to the certificate submitted under that leaf's identity", start, end, idx)
+		}
+		if !chainOK {
+			h.fail("LogClient.GetEntries(%d,%d): entry %d does not decode to the chain of a submission of that certificate", start, end, idx)
+		}
+	}
+}
+
+func (h *hist) entries(tag callTag, start, end int64, inRange, decoded bool) {
+	rsp, err := h.getEntries(tag, start, end, decoded)
 	if !inRange {
 		if err == nil && start >= int64(h.log.Size()) {
 			h.fail("get-entries(%d,%d) answered although the log has only %d entries", start, end, h.log.Size())
@@ -1199,13 +1463,13 @@ func (h *hist) op(rr *rand.Rand, tag callTag) {
 	case k < 77:
 		if size == 0 || rr.Intn(8) == 0 {
 			h.tagf("op:entries-beyond")
-			h.entries(tag, int64(size)+int64(rr.Intn(3)), int64(size)+3, false)
+			h.entries(tag, int64(size)+int64(rr.Intn(3)), int64(size)+3, false, rr.Intn(2) == 0)
 			return
 		}
 		s := int64(rr.Intn(int(size)))
 		e := s + int64(rr.Intn(int(size)+3))
 		h.tagf("op:get-entries")
-		h.entries(tag, s, e, true)
+		h.entries(tag, s, e, true, rr.Intn(2) == 0)
 	case k < 89:
 		if size == 0 || rr.Intn(8) == 0 {
 			h.tagf("op:entry-and-proof-beyond")
@@ -2053,7 +2317,9 @@ func runHistory(w *world, r *rand.Rand, conc bool, caseNo int, cf hcfg) lib.Case
 			store.mu.Lock()
 			adds, got := store.adds, store.got
 			store.mu.Unlock()
-			if len(h.accepted) > 0 && adds == 0 || size > 0 && got == 0 {
+			// (with the small LRU cache a history of at most two distinct chains is served from the
+			// cache alone, so only the uncached configuration has to have read from the store)
+			if len(h.accepted) > 0 && adds == 0 || size > 0 && got == 0 && cf.store != "external-lru" {
 				panic("c06 harness: the instance did not use the external issuance-chain storage")
 			}
 		}
@@ -2094,11 +2360,13 @@ func (h *hist) creatorOf(sb *submission) *submission {
 	return nil
 }
 
-// fetchAll reads the whole log through get-entries (several requests: the limit applies).
+// fetchAll reads the whole log through get-entries (several requests: the limit applies), in the
+// parsed form (LogClient.GetEntries): every entry of the history, whatever its certificate looks
+// like, is handed back by the client decoded to the submitted certificate and chain.
 func (h *hist) fetchAll(next func() callTag, size int64) ([]ct.LeafEntry, error) {
 	var all []ct.LeafEntry
 	for int64(len(all)) < size {
-		rsp, err := h.lc.GetRawEntries(h.ctx(next()), int64(len(all)), size-1)
+		rsp, err := h.getEntries(next(), int64(len(all)), size-1, true)
 		if err != nil || len(rsp.Entries) == 0 {
 			h.fail("get-entries(%d,%d) during audit: %v", len(all), size-1, err)
 			return all, err
